@@ -64,7 +64,8 @@ pub fn draw_knobs(rng: &mut Rng) -> SimKnobs {
     // half of the runs switch right before atomic operations (the synchronisation operations through which
     // tasks of safe Rust code can communicate at all)
     let atomic_thin = *rng.pick(&[0u32, 0, 0, 1, 1, 1, 2, 7]);
-    SimKnobs { threads, steal_p, log_thin, strategy, sched_seed: rng.u64(), edge_thin, atomic_thin }
+    let spurious_wake = *rng.pick(&[0u32, 0, 0, 0, 0, 4, 64]);
+    SimKnobs { threads, steal_p, log_thin, strategy, sched_seed: rng.u64(), edge_thin, atomic_thin, spurious_wake }
 }
 
 pub fn draw_cfg(rng: &mut Rng, allow_dwarf: bool) -> CfgBits {
@@ -229,7 +230,10 @@ impl Prop for C09 {
         }
         out.add("sched_points_before_atomic_operations", sim.stats.sched_points_atomic);
         out.add("atomic_operations_executed_in_parallel_build", sim.stats.atomic_ops_seen);
-        out.add("futex_waits_turned_into_yields", sim.stats.futex_waits_as_yield);
+        out.add("futex_waits_parked_in_simulator", sim.stats.futex_waits_as_yield);
+        out.add("futex_wakes_delivered_in_simulator", sim.stats.futex_wakes);
+        out.add("fault:spurious_futex_wakeup", sim.stats.futex_spurious_wakeups);
+        out.add("futex_timed_waits_expired_in_simulated_time", sim.stats.futex_timeouts_fired);
         out.add("context_switches", sim.stats.context_switches);
         out.add("scheduler_decisions", sim.stats.decisions);
         out.add(&format!("threads_{:02}", case.sim.threads), 1);
